@@ -75,7 +75,7 @@ Proof.
         assert (Hna : r_pc s <> RAdd) by (intros Hy; rewrite Hy in Hx; cbn in Hx; lia);
         specialize (Hw Hna)
       end;
-  repeat match goal with E : r_pc s = _ |- _ => rewrite E in * end; cbn in Hpc, Hp, Hnp;
+  try match goal with E : r_pc s = _ |- _ => rewrite E in * end; cbn in Hpc, Hp, Hnp;
   try (specialize (Hw ltac:(discriminate)));
   (* the panic case: the counter cannot be zero *)
   try (match goal with E : r_st s ?i = RStored, Z : r_wg s = 0 |- _ =>
